@@ -67,6 +67,9 @@ type instance struct {
 	held    bool
 	buf     *bytes.Buffer // when non-nil, lines are buffered here (submission in progress)
 	subFaults []fault     // faults consumed by the operations of the submission in progress
+	nfaults int           // operations that were made to fail so far
+	subCancel    func()   // cancels the context of the submission in progress
+	cancelOnFail bool     // a failing issuer upload of this submission is a cancelled request (client gone)
 }
 
 var errInjected = errors.New("injected failure")
@@ -121,6 +124,9 @@ func (in *instance) gate(op opInfo) (fault, bool) {
 		f = in.plan(in.nops, op)
 	}
 	in.nops++
+	if f != fOK {
+		in.nfaults++
+	}
 	if in.buf != nil {
 		in.subFaults = append(in.subFaults, f)
 		return f, true
@@ -278,6 +284,7 @@ func (b simBackend) Upload(ctx context.Context, key string, data []byte, opts *c
 	}
 	if !conflict && f != fFail {
 		w.objects[key] = object{bytes.Clone(data), imm}
+		w.mon.noteUpload(key, data)
 		if key == "checkpoint" {
 			w.mon.published(w, data)
 		}
@@ -285,6 +292,14 @@ func (b simBackend) Upload(ctx context.Context, key string, data []byte, opts *c
 	w.logf(b.in, "> op %d upload %s %s %s %s %v", b.in.id, key, code, w.payloadText(key, data, opts != nil && opts.Compressed), f, ok)
 	if conflict {
 		return fmt.Errorf("immutable object %q already exists with different contents", key)
+	}
+	if f == fFail && b.in.buf != nil && b.in.cancelOnFail && b.in.subCancel != nil && strings.HasPrefix(key, "issuer/") {
+		// the submitter's request context is cancelled while the upload is in flight: a backend that
+		// honours the context (S3) reports the context's error and has stored nothing
+		b.in.subCancel()
+		if err := ctx.Err(); err != nil {
+			return err
+		}
 	}
 	if f != fOK {
 		return errInjected
